@@ -27,18 +27,19 @@ Definition smallb (n : nat) : bool := (Z.of_nat n <? 10 ^ 50)%Z.
 Lemma smallb_sound : forall n, smallb n = true -> small n.
 Proof. intros n H. unfold smallb in H. unfold small. now apply Z.ltb_lt. Qed.
 
-Definition fn_okb (pre : ftab) (d : fdef) : bool :=
+(* B = the data variables of the module bound so far: a function may capture them (read by reference) *)
+Definition fn_okb (pre : ftab) (B : list str) (d : fdef) : bool :=
   let '(f, (ps, body)) := d in
   let caps := free_vars ps body in
   src_nameb f && nodupb ps && forallb src_nameb ps &&
-  forallb (fun n => mem_str n (fnames pre)) caps &&
+  forallb (fun n => mem_str n (fnames pre) || mem_str n B) caps &&
   forallb (fun x => negb (mem_str x (fnames (vis caps pre)))) ps &&
-  ok_block (vis caps pre) (Some ps) false (rev ps) body &&
+  ok_block (vis caps pre) (Some ps) (dcaps pre caps) false (rev ps) body &&
   smallb (1 + 2 * length (fcode_of ps body) + 8).
 
-Lemma fn_okb_sound : forall pre d, fn_okb pre d = true -> fn_ok pre d.
+Lemma fn_okb_sound : forall pre B d, fn_okb pre B d = true -> fn_ok pre B d.
 Proof.
-  intros pre [f [ps body]] H. unfold fn_okb in H. unfold fn_ok.
+  intros pre B [f [ps body]] H. unfold fn_okb in H. unfold fn_ok.
   repeat (apply andb_true_iff in H; destruct H as [H ?]).
   repeat split; try assumption.
   - now apply nodupb_sound.
@@ -50,7 +51,7 @@ Proof.
 Qed.
 
 Fixpoint fns_okb (pre FT : ftab) : bool :=
-  match FT with [] => true | d :: t => fn_okb pre d && fns_okb (pre ++ [d]) t end.
+  match FT with [] => true | d :: t => fn_okb pre [] d && fns_okb (pre ++ [d]) t end.
 
 Lemma fns_okb_sound : forall FT pre, fns_okb pre FT = true -> fns_ok pre FT.
 Proof.
@@ -63,8 +64,8 @@ Qed.
 Fixpoint mod_okb (FT : ftab) (B : list str) (its : list mitem) : bool :=
   match its with
   | [] => true
-  | MDef d :: t => fn_okb FT d && negb (mem_str (fst d) (fnames FT)) && negb (mem_str (fst d) B) && mod_okb (FT ++ [d]) B t
-  | MStmt st :: t => ok_stmt FT None false B st && mod_okb FT (after B st) t
+  | MDef d :: t => fn_okb FT B d && negb (mem_str (fst d) (fnames FT)) && negb (mem_str (fst d) B) && mod_okb (FT ++ [d]) B t
+  | MStmt st :: t => ok_stmt FT None [] false B st && mod_okb FT (after B st) t
   end.
 
 Lemma mod_okb_sound : forall its FT B, mod_okb FT B its = true -> mod_ok FT B its.
